@@ -308,7 +308,7 @@ def unit_optimizer(S):
         ost = sym(ctx, "opt_state", sd((3,), f32))
         pstruct = jax.tree.map(lambda x: sd(x.shape, x.dtype), eqx.filter(pol0, eqx.is_inexact_array))
 
-        def grad_stub(policy, buffer, *rest):
+        def grad_stub(policy, buffer, *rest, **kw):
             loss, gtheta = opaque.ocall("LOSSGRAD#", (sd((), f32), sd((2,), f32)), policy.theta, buffer.advantages[0])
             grads = eqx.tree_at(lambda p: p.theta, jax.tree.map(lambda x: jnp.zeros_like(x), eqx.filter(policy, eqx.is_inexact_array)), gtheta)
             nstats = {PPO: 5, A2C: 4, REINFORCE: 3}[cls]
